@@ -110,12 +110,11 @@ def _lar_log(S_, kind):
 c.exit_check(_lar_log)
 
 CS = "config/config_service.py"
-c = contract(CS, "ConfigService.tracepoint_logger", [])
+c = contract(CS, "ConfigService.tracepoint_logger", [], coarse=True)
 c.param("self", OBJ("ConfigService"))
 c.result = OPT(HOSTOBJ)
 c.logged = "tracepoint_logger"
 c.modifies = lambda S_: []
-c.coarse = True
 
 from .c10_conditions import inv_action_context
 
